@@ -131,11 +131,15 @@ def live_history(N, W, mode, kind, tid):
     for r in live:
         share = len(w.smp[r])
         h0 = w.begin("iter", r)  # epoch 0
-        for _ in range((share + 1) // 2):
-            w.step(r, h0)
+        alive0 = True
+        for _ in range((share + 1) // 2):  # `share` is the implementation's own len(): it may be wrong
+            if w.step(r, h0) == "end":
+                alive0 = False
+                break
         h1 = w.begin("get", r, w.smp[r].epoch)  # epoch 1, the counter stays
         w.drain(r, h1)
-        w.drain(r, h0)
+        if alive0:
+            w.drain(r, h0)
     for r in live:
         ha, hb = w.begin("iter", r), w.begin("iter", r)  # epochs 1 and 2
         pending = [ha, hb]
